@@ -25,11 +25,20 @@ type cmpSite struct {
 
 var flipOp = map[token.Token]token.Token{token.LSS: token.GTR, token.LEQ: token.GEQ, token.GTR: token.LSS, token.GEQ: token.LEQ, token.EQL: token.EQL, token.NEQ: token.NEQ}
 
+type cmpDecl struct {
+	pk *packages.Package
+	fd *ast.FuncDecl
+}
+
+var cmpDecls = map[string]cmpDecl{}
+
 func collectCmps(p *Prog) map[string][]cmpSite {
 	out := map[string][]cmpSite{}
+	cmpDecls = map[string]cmpDecl{}
 	p.funcDecls(func(pk *packages.Package, fd *ast.FuncDecl) {
 		info := pk.TypesInfo
 		fn := pkgShort(pk.Types) + "." + funcName(fd)
+		cmpDecls[fn] = cmpDecl{pk, fd}
 		ast.Inspect(fd.Body, func(n ast.Node) bool {
 			be, ok := n.(*ast.BinaryExpr)
 			if !ok {
@@ -167,6 +176,22 @@ func ruleCmpSpec(c *Ctx) {
 		}
 		g.entries = append(g.entries, cs)
 	}
+	// pre-pass: comparisons that some entry accounts for are never near-miss candidates of another entry
+	claimed := map[token.Pos]bool{}
+	for _, gk := range order {
+		g := groups[gk]
+		for _, s := range all[g.fn] {
+			okAll := true
+			for _, a := range g.atoms {
+				if _, ok := coefOfAtom(s.p, regexp.MustCompile(a)); !ok {
+					okAll = false
+				}
+			}
+			if okAll && len(atomsOf(s.p)) == len(g.atoms) {
+				claimed[s.pos] = true
+			}
+		}
+	}
 	for _, gk := range order {
 		g := groups[gk]
 		key := fmt.Sprintf("%s[%s]", g.fn, strings.Join(g.atoms, ","))
@@ -208,6 +233,15 @@ func ruleCmpSpec(c *Ctx) {
 			continue
 		}
 		if len(matched) == 0 {
+			nm, why := cmpNearMiss(g.fn, g.atoms, res, sites, isOrdering(g.entries[0].op), claimed)
+			if nm == nil {
+				// fallback: the replacement may also have changed the class (an equality turned into an ordering test)
+				nm, why = cmpNearMiss(g.fn, g.atoms, res, sites, !isOrdering(g.entries[0].op), claimed)
+			}
+			if nm != nil {
+				c.bad(key, nm.pos, "%s: the spec's comparison (%s) is not made; instead `%s` compares %s", g.fn, specStr, nm.text, why)
+				continue
+			}
 			c.unm(key, sites[0].pos, "comparison not found in %s (spec: %s)", g.fn, specStr)
 			continue
 		}
@@ -272,3 +306,125 @@ func fmtWant(m map[string]int) string {
 }
 
 func isOrdering(op string) bool { return op == "<" || op == "<=" || op == ">" || op == ">=" }
+
+// atomLiteral recovers the operand text from a table pattern ((?i)^a\.b$ or (?i)(^|\.)a\.b\.c$).
+func atomLiteral(pat string) string {
+	pat = strings.TrimPrefix(pat, "(?i)")
+	pat = strings.TrimPrefix(pat, "(^|\\.)")
+	pat = strings.TrimPrefix(pat, "^")
+	pat = strings.TrimSuffix(pat, "$")
+	return strings.ReplaceAll(pat, "\\", "")
+}
+
+// cmpNearMiss: the tabled comparison is gone; is there a comparison of the same class and arity that keeps all but one
+// of its operands? If the missing operand still exists in the function (a local/parameter of that name is still
+// declared; a field of that name is still selected somewhere in the package), the comparison was pointed at another
+// value - a violation. If it no longer exists anywhere it was renamed and the checker cannot tell (nil => unmodelled).
+func cmpNearMiss(fn string, atoms []string, res []*regexp.Regexp, sites []cmpSite, ordering bool, claimed map[token.Pos]bool) (*cmpSite, string) {
+	d, ok := cmpDecls[fn]
+	if !ok {
+		return nil, ""
+	}
+	if len(res) == 1 {
+		// `x % m == k`: one opaque atom mod(x,m). Same modulus with another dividend is an operand replacement.
+		lit := atomLiteral(atoms[0])
+		if !strings.HasPrefix(lit, "mod(") || !strings.Contains(lit, ",") {
+			return nil, ""
+		}
+		modulus := lit[strings.LastIndex(lit, ","):]
+		for i := range sites {
+			s := &sites[i]
+			as := atomsOf(s.p)
+			if claimed[s.pos] || isOrdering(s.op.String()) != ordering || len(as) != 1 || !strings.HasPrefix(as[0], "mod(") {
+				continue
+			}
+			if strings.EqualFold(as[0][strings.LastIndex(as[0], ","):], modulus) && !strings.EqualFold(as[0], lit) {
+				return s, fmt.Sprintf("`%s` where the spec's operand is `%s`", as[0], lit)
+			}
+		}
+		return nil, ""
+	}
+	for i := range sites {
+		s := &sites[i]
+		if isOrdering(s.op.String()) != ordering || len(atomsOf(s.p)) != len(res) || claimed[s.pos] {
+			continue
+		}
+		missing := -1
+		n := 0
+		for j, re := range res {
+			if _, ok := coefOfAtom(s.p, re); ok {
+				n++
+			} else {
+				missing = j
+			}
+		}
+		if n != len(res)-1 || missing < 0 {
+			continue
+		}
+		lit := atomLiteral(atoms[missing])
+		// operand text -> the identifier or field that must still exist
+		leaf := lit
+		if strings.HasPrefix(leaf, "len(") {
+			leaf = strings.TrimSuffix(strings.TrimPrefix(leaf, "len("), ")")
+		}
+		isPath := strings.Contains(leaf, ".")
+		if isPath {
+			leaf = leaf[strings.LastIndex(leaf, ".")+1:]
+		}
+		if i := strings.Index(leaf, "("); i >= 0 {
+			leaf = leaf[:i]
+		}
+		var other string
+		for _, a := range atomsOf(s.p) {
+			hit := false
+			for _, re := range res {
+				if re.MatchString(a) {
+					hit = true
+				}
+			}
+			if !hit {
+				other = a
+			}
+		}
+		declared := func(name string) bool {
+			found := false
+			ast.Inspect(d.fd, func(n ast.Node) bool {
+				if id, ok := n.(*ast.Ident); ok && strings.EqualFold(id.Name, name) && d.pk.TypesInfo.Defs[id] != nil {
+					found = true
+				}
+				return !found
+			})
+			return found
+		}
+		if isPath && strings.Contains(other, ".") {
+			// same field path under another base identifier whose old name is gone: the base was renamed
+			lb, ob := lit[:strings.Index(lit, ".")], other[:strings.Index(other, ".")]
+			if strings.EqualFold(lit[len(lb):], other[len(ob):]) && !declared(lb) {
+				continue
+			}
+		}
+		still := false
+		if !isPath {
+			ast.Inspect(d.fd, func(n ast.Node) bool {
+				if id, ok := n.(*ast.Ident); ok && strings.EqualFold(id.Name, leaf) && d.pk.TypesInfo.Defs[id] != nil {
+					still = true
+				}
+				return !still
+			})
+		} else {
+			for _, f := range d.pk.Syntax {
+				ast.Inspect(f, func(n ast.Node) bool {
+					if se, ok := n.(*ast.SelectorExpr); ok && strings.EqualFold(se.Sel.Name, leaf) {
+						still = true
+					}
+					return !still
+				})
+			}
+		}
+		if !still {
+			continue
+		}
+		return s, fmt.Sprintf("`%s` where the spec's operand is `%s` (which still exists here, so this is not a rename)", other, lit)
+	}
+	return nil, ""
+}
